@@ -357,12 +357,15 @@ func c17Cover(w *core.W, j int) {
 // key sizes incl. the largest RSA modulus Generate accepts (4096 bits = 512 octets) and one that is
 // not a multiple of 64 bits
 var c17KeyBits = map[uint8][]int{
-	dns.RSASHA1: {1024, 3072}, dns.RSASHA256: {1024, 2048, 4096, 1032}, dns.RSASHA512: {1024, 4096},
+	dns.RSASHA1: {1024, 3072}, dns.RSASHA1NSEC3SHA1: {2048, 1024}, dns.RSASHA256: {1024, 2048, 4096, 1032}, dns.RSASHA512: {1024, 4096},
 	dns.ECDSAP256SHA256: {256}, dns.ECDSAP384SHA384: {384}, dns.ED25519: {256},
 }
 
 func c17Keys(w *core.W, j int) {
 	alg := allAlgs[j%len(allAlgs)]
+	if alg == dns.RSASHA1 && (j/len(allAlgs))%2 == 1 {
+		alg = dns.RSASHA1NSEC3SHA1 // the same RSA/SHA-1 under its NSEC3-aware number (RFC 5155 s.2)
+	}
 	bl := c17KeyBits[alg]
 	bits := bl[(j/len(allAlgs))%len(bl)]
 	k, err := freshKey(alg, bits, "keys.example.", 256+uint16(j%2))
@@ -371,7 +374,7 @@ func c17Keys(w *core.W, j int) {
 		w.Count("short_scalar_ecdsa_keys", 1)
 	}
 	if err != nil {
-		w.Inconclusive("keygen:" + err.Error())
+		w.Violation("C17/key-generation-fails/"+algName(alg), fmt.Sprintf("Generate(%d) for a supported algorithm and size failed: %v", bits, err), map[string]any{"alg": algName(alg), "bits": bits})
 		return
 	}
 	an := algName(alg)
